@@ -551,7 +551,7 @@ class all_dot_brackets:
                 "let SFL = fill(0, 0)", "let SF = 0 - 1"]},
         {"when": "after", "at": "unique.append(set())", "label": "sorted-order",
          "do": ["use sorted_rearrangement(component, F, c4)", "let SF = 0 - 1"]},
-        {"when": "after", "at": "for permutation in itertools.permutations(component)", "label": "sorted-permutation-was-enumerated",
+        {"when": "after", "at": "for permutation in", "label": "sorted-permutation-was-enumerated",
          "do": ["assert 0 <= perm_pos(c4) and perm_pos(c4) < len(PS)",
                 "let SFL = snoc(SFL, SF)"]},
         # the permutation as a bijection between positions and the component's stems (PP = position of a stem)
@@ -626,7 +626,7 @@ class all_dot_brackets:
                                                       "implies(HF(0), forall(lambda c: implies(0 <= c and c < len(components), "
                                                       "SFL[c] in unique[c] and agree(SFL[c], F, c, GR, CI))))"]),
                 "let DB = ref(DotBracket, 0)"]},
-        {"when": "after", "at": "for assignment in itertools.product(*unique)", "label": "assembled-choice-was-enumerated",
+        {"when": "after", "at": "for assignment in", "label": "assembled-choice-was-enumerated",
          "do": ["assert implies(HF(0), 0 <= prod_pos(SFL) and prod_pos(SFL) < len(PRD))"]},
         {"when": "before", "at": "solutions.add(", "label": "assembled-assignment-is-proper-and-greedy-stable",
          "do": ["forall a | assert implies(a in GR, 0 <= CI[a] and CI[a] < len(assignment) and assignment[CI[a]] in unique[CI[a]] "
